@@ -61,11 +61,14 @@ def cases(rng, tier, Case):
             for seq in itertools.product("+-P", repeat=k):
                 if "P" not in seq or seq[-1] == "P":
                     continue
-                ops = [("+", "C")] + [(("+", c) if x == "+" else ("-", r) if x == "-" else ("P", probe)) for x in seq] + [("?", r + "3m"), ("D", ""), ("P", probe)]
-                erased = [x for i, x in enumerate(ops) if x[0] != "P" or i == len(ops) - 1]
-                g = script(ops)
-                res.append(Case("hist 100 R %s" % g, "full", {"g": g, "role": "full"}))
-                res.append(Case("hist 100 R %s" % script(erased), "erased", {"g": g, "role": "erased"}))
+                for base in ("C", "C3", "nebp3"):
+                    if k == 4 and base != "C":
+                        continue
+                    ops = [("+", base)] + [(("+", c) if x == "+" else ("-", r) if x == "-" else ("P", probe)) for x in seq] + [("?", r + "3m"), ("D", ""), ("P", probe + " ~~s~~ %% p")]
+                    erased = [x for i, x in enumerate(ops) if x[0] != "P" or i == len(ops) - 1]
+                    g = script(ops)
+                    res.append(Case("hist 100 R %s" % g, "full", {"g": g, "role": "full"}))
+                    res.append(Case("hist 100 R %s" % script(erased), "erased", {"g": g, "role": "erased"}))
     # removal of a rule that is not (or no longer) registered while another rule shares its marker character
     probe2 = "t <b>x</b> u <http://a.b> v *w* _x_ [y](z) ![i](j) %% xx % k % end"
     for r1 in "axmMliE348sb":
